@@ -4,6 +4,7 @@
 
     /venv/bin/python tools/seed_suite.py C13E C13F ..."""
 import json
+import os
 import shutil
 import sys
 from pathlib import Path
@@ -14,7 +15,7 @@ from seed_eval import ROOT, sh, suite_counts  # noqa: E402
 
 def main():
     for seed in sys.argv[1:]:
-        sd = ROOT / "seeded" / seed
+        sd = ROOT / os.environ.get("SEED_DIR", "seeded") / seed
         tree = str(ROOT / ".work" / f"suite_{seed}")
         sh(f"git -C /repo worktree remove --force {tree}")
         shutil.rmtree(tree, ignore_errors=True)
